@@ -8,6 +8,7 @@ PART = {
                  "Carquet.Properties.C08.C08_plain_reads_in_input",
                  "Carquet.Properties.C08.C08_plain_byte_array_slices_in_input"],
     components=["c04"],
+    shards={"c04": 14},
     fidelity={"reader bounds arithmetic (open paths, page loads)": "in progress (reader component); explored by mutation until then"},
     rule="c04: 6 (thorough 40) base files over 5 codecs; per base 60 (400) structure-aware mutations: footer fields through "
          "carquet's own thrift structs (counts, offsets, sizes, types, codecs, child counts, repetition), page-header fields "
